@@ -175,6 +175,10 @@ Proof. intros Ht H Hr. unfold ws_comment_newline. apply (wscn_f_complete r Hr); 
 (* ================================================================================================ *)
 (* key                                                                                              *)
 (* ================================================================================================ *)
+Lemma bind_ok_fails' {A B} (p : parser A) (f : A -> parser B) i a i' :
+  p i = Ok a i' -> fails (f a) i' -> fails (bind p f) i.
+Proof. intros E (e & j & F). unfold fails, bind. rewrite E, F. eauto. Qed.
+
 Lemma simple_key_tok_head t k : simple_key_tok t k ->
   exists b t', t = b :: t' /\ wschar b = false /\ b <> x2e /\ b <> x3d /\ b <> x5d.
 Proof.
@@ -401,4 +405,19 @@ Lemma pop_key_total kp : kp <> [] -> exists path k, pop_key kp = Some (path, k).
 Proof.
   intro Hne. unfold pop_key. destruct (rev kp) as [|last rinit] eqn:Er; [|eauto].
   apply (f_equal (@length key)) in Er. rewrite rev_length in Er. destruct kp; [congruence|discriminate].
+Qed.
+
+(* key fails without commitment in front of a byte that starts no key (e.g. "}" or "]") *)
+Lemma key_fails i w b tl : ws_tok w -> rest i = w ++ b :: tl -> wschar b = false ->
+  b <> x22 -> b <> x27 -> unquoted_key_char b = false -> fails key_ i.
+Proof.
+  intros Hw H Hb Hq Ha Hu. unfold fails. rewrite key_unfold. apply bind_fails, try_map_fails, context_fails, separated1_fails.
+  unfold key_part. eapply (bind_ok_fails' _ _ i).
+  - apply (span_ok _ _ w). apply (ws_complete i w (b :: tl) H Hw). exact Hb.
+  - apply bind_fails. unfold fails. rewrite simple_key_unfold. apply pmap_fails.
+    assert (F : fails key_dispatch (adv w i)).
+    { unfold key_dispatch, QUOTATION_MARK, APOSTROPHE. pose proof (rest_adv w _ i H) as R.
+      unfold fails. rewrite (bind_ok _ _ _ _ _ (peek_ok _ _ _ _ (any_ok _ b tl R))).
+      apply byte_eqb_neq in Hq, Ha. rewrite Hq, Ha. apply unquoted_key_fails. rewrite R. exact Hu. }
+    destruct F as (e & j & F). unfold fails, with_span. rewrite F. eauto.
 Qed.
